@@ -191,11 +191,24 @@ Theorem C19_spec_characterised : forall t, t <> [] ->
 Proof. exact spec_lines_characterised. Qed.
 Print Assumptions C19_spec_characterised.
 
+(* "for texts whose line breaks are \n, \r, \r\n, \v, \f, \x85, U+2028, U+2029": on texts without
+   \x1c \x1d \x1e the reference is CPython's str.splitlines (same function, CPython's full break
+   table - C19_py_str_breaks below ties that table to the running interpreter) *)
+Theorem C19_splitlines_is_python : forall t, forallb (fun c => negb (is_sep_ctl c)) t = true ->
+  iter_splitlines gen_breaks t
+  = splitlines is_py_break t ++ (if ends_with is_py_break t then [[]] else []).
+Proof.
+  exact (fun t H => eq_trans (iter_splitlines_correct gen_breaks t C19_gen_breaks_ok)
+          (f_equal2 (fun a (b : bool) => a ++ (if b then [[]] else []))
+                    (proj1 (spec_is_python_splitlines t H)) (proj2 (spec_is_python_splitlines t H)))).
+Qed.
+Print Assumptions C19_splitlines_is_python.
+
 (* ---- the CPython tables behind Spec and Model, re-probed on every run ------------------------ *)
 (* Gen.C19_Gen lists, for the interpreter that runs the check, every code point / byte at which
    str.splitlines / bytes.splitlines break, that str.lstrip / bytes.lstrip remove and that json.loads
    skips; the predicates used in Spec, Model and Check are exactly those tables. *)
-Theorem C19_py_str_breaks : forall c, is_break c || is_sep_ctl c = mem c gen_py_str_breaks.
+Theorem C19_py_str_breaks : forall c, is_py_break c = mem c gen_py_str_breaks.
 Proof. exact str_breaks_table. Qed.
 Print Assumptions C19_py_str_breaks.
 Theorem C19_py_bytes_breaks : forall c, is_nl_byte c = mem c gen_py_bytes_breaks.
